@@ -382,7 +382,10 @@ func genHistCase(r *Rng, id int, tier string) *Sx {
 		return Obj{Kind: "pod", Pod: o}
 	}
 	nsObj := func(ns string) Obj {
-		return Obj{Kind: "ns", Ns: &NsObj{Name: ns, Labels: genLabels(r, nsLblKeys, nsLblVals, 2)}}
+		l := genLabels(r, nsLblKeys, nsLblVals, 2)
+		// selectors of later policies are biased to the namespace labels in play (so that label updates matter)
+		candNs = append(candNs, append(append([]KV{}, l...), KV{"kubernetes.io/metadata.name", ns}))
+		return Obj{Kind: "ns", Ns: &NsObj{Name: ns, Labels: l}}
 	}
 	var live []Obj // what the generator believes is present (for deletes and meaningful queries)
 	add := func(o Obj) { c.Add(Ls(At("ins"), o.Sx())); live = append(live, o) }
@@ -428,14 +431,22 @@ func genHistCase(r *Rng, id int, tier string) *Sx {
 			}
 			c.Add(q)
 		case k < 55:
-			add(podObj(Pick(r, pods)))
+			p := Pick(r, pods)
+			if r.P(25) { // the same pod (same owner and labels) comes back with another port table
+				p.ports = genCPorts(r)
+			}
+			add(podObj(p))
 		case k < 62:
 			add(nsObj(Pick(r, nss)))
 		case k < 74:
 			add(Obj{Kind: "np", Np: genNetPol(r, cfg, Pick(r, nss), fmt.Sprintf("np%d", r.Intn(3)))})
 		case k < 82:
 			if anpN < len(prios) {
-				a := &ANP{Name: fmt.Sprintf("anp%d", r.Intn(3)), Prio: prios[anpN], Subject: genSubject(r), Ingress: genARules(r, false, "i"), Egress: genARules(r, false, "e")}
+				name := fmt.Sprintf("anp%d", anpN)
+				if r.P(15) {
+					name = fmt.Sprintf("anp%d", r.Intn(3)) // sometimes an existing name: the insert is rejected
+				}
+				a := &ANP{Name: name, Prio: prios[anpN], Subject: genSubject(r), Ingress: genARules(r, false, "i"), Egress: genARules(r, false, "e")}
 				anpN++
 				add(Obj{Kind: "anp", Anp: a})
 			}
@@ -445,6 +456,14 @@ func genHistCase(r *Rng, id int, tier string) *Sx {
 			// delete: mostly something present, sometimes something absent
 			if len(live) > 0 && r.P(85) {
 				j := r.Intn(len(live))
+				if r.P(35) { // prefer an admin policy that is not the last one inserted
+					for t := 0; t < len(live); t++ {
+						if live[t].Kind == "anp" {
+							j = t
+							break
+						}
+					}
+				}
 				d := Ls(At("del"), live[j].Sx())
 				if r.P(20) {
 					d.Add(At("fresh"))
